@@ -143,7 +143,10 @@ class C15(Prop):
 
         def ref(pool=None):
             if bad:
-                return rng.choice(amb + ['nope'])
+                # a missing name, an ambiguous one, or an existing name in another capitalisation (names are case-sensitive here:
+                # such a reference is refused, it must not half-resolve)
+                other_case = [n.swapcase() for n in names if n.swapcase() != n and n.swapcase() not in names]
+                return rng.choice(amb + ['nope'] + other_case[:2])
             pool = uniq if pool is None else pool
             return rng.choice(pool) if pool else 'nope'
         kinds = ['select', 'select', 'withColumn', 'filter', 'drop', 'dropRef', 'rename', 'rename', 'join', 'join', 'joinOn', 'crossJoin', 'union', 'agg', 'agg',
